@@ -342,6 +342,10 @@ func genBmff(c *Ctx, malformed bool) *bmffTree {
 		t.top = append(t.top, &bnode{typ: "mdat", payload: rbytes(c, c.Rng.Intn(300)), large: true})
 	}
 	if c.Rng.Intn(4) == 0 {
+		// a last box shorter than the 16 bytes the header reader looks at
+		t.top = append(t.top, &bnode{typ: "free", payload: make([]byte, c.Rng.Intn(8))})
+	}
+	if c.Rng.Intn(4) == 0 {
 		// pad so that some box ends exactly at the 4096-byte window of the bufio.Reader
 		var all []*bnode
 		for _, n := range t.top[1:] {
@@ -524,6 +528,7 @@ func tiffOrder(p []byte) (order int, fio uint32) {
 func expectedBmff(t *bmffTree, calls int) (string, bool) {
 	var ev []string
 	pos := 0
+	total := len(t.bytes())
 	for i, n := range t.top {
 		sz := len(n.bytes())
 		if i == 0 {
@@ -533,6 +538,11 @@ func expectedBmff(t *bmffTree, calls int) (string, bool) {
 		}
 		if i > calls {
 			break
+		}
+		if total-pos < 16 {
+			// the header reader looks at 16 bytes: a last box shorter than that is reported as an error, nothing is consumed
+			ev = append(ev, fmt.Sprintf("md=BufLength@%d", pos))
+			return strings.Join(ev, " "), true
 		}
 		var uuids []*bnode
 		switch n.tag {
